@@ -92,7 +92,7 @@ def escape_obligations(ctx, rule, repo, entry, tolerant, allowed_families, what)
     return n
 
 
-def g_obligations(ctx, rule_prefix, repo, entries, rules=('G1', 'G2', 'G3', 'G4', 'G5', 'G6', 'G7', 'G9', 'G10', 'G11', 'G12', 'G14')):
+def g_obligations(ctx, rule_prefix, repo, entries, rules=('G1', 'G2', 'G3', 'G4', 'G5', 'G6', 'G7', 'G9', 'G10', 'G11', 'G12', 'G14', 'G15', 'G16')):
     """REFUTED obligations for crash constructs in functions reachable from `entries`; one HOLDS
     obligation per rule summarising the scan."""
     prog = program(repo)
@@ -144,6 +144,9 @@ G_TEXT = {
            'separated only by optional parts)',
     'G11': 'G11: standard-library calls that raise for part of their domain (unicodedata.name without '
            'default) are given a default or are inside a handler for that exception',
+    'G16': 'G16: a value the code itself treats as possibly a dict/list/set is never used as a dictionary key',
+    'G15': 'G15: the result of str.find()/rfind() is compared with -1 (or 0) on every path before it is used as a '
+           'position',
     'G14': 'G14: a local bound to a lookup with a literal default (pop/get/getattr) is only used through '
            'attributes that the default\'s type has too',
     'G10': 'G10: a fixed module-level table is subscripted only with a literal member key, under a '
@@ -151,6 +154,6 @@ G_TEXT = {
 }
 
 
-def declare_g(ctx, rules=('G1', 'G2', 'G3', 'G4', 'G5', 'G6', 'G7', 'G9', 'G10', 'G11', 'G12', 'G14')):
+def declare_g(ctx, rules=('G1', 'G2', 'G3', 'G4', 'G5', 'G6', 'G7', 'G9', 'G10', 'G11', 'G12', 'G14', 'G15', 'G16')):
     for r in rules:
         ctx.rule(r, G_TEXT[r], 1)
